@@ -99,4 +99,9 @@ CHECKS = {
         technique="deterministic cooperative scheduler for real threads (one task runs between yield points; yield points = every cache operation of a proxy and, for file-backed caches, every mutating file-system operation); depth-first enumeration of schedules under a preemption bound, stateless re-execution; oracle = solo NoCache outcome per task + quiescent inspection of every served key",
         text="10 thread-usable cache kinds x 7 (quick) / 13 (thorough) scenarios of overlapping queries; all schedules with <= 2 (3) preemptions up to a per-scenario budget; distinct interleavings counted from (task, op, key) traces. Exploration: preemption inside one in-memory cache operation is not explored.",
         note="A task runs alone between yield points; branching only where the preempted operation's key is touched by another task."),
+    "C08": dict(
+        category=_EXPL, design_ref="DESIGN.md section 4, C08",
+        technique="life-cycle reference-model monitor (recipe / ready / error per declared key) over histories of read, metadata, contains, list, remove, clean (through the documented -R-meta query) and re-read; call-log monitor for exactly-once evaluation incl. dependency recipes; expected bytes = reference-interpreter value of the harness-resolved absolute query serialised by the key's extension",
+        text="Seeded recipes.yaml files (plain and dictionary form, local and sub-directory sections, './' and '../' references, failing recipes, txt/json/pickle results) at depth 0-2 of memory- and directory-backed recipe stores used directly or mounted at one/two-component prefixes. Exploration.",
+        note="Global cache is NoCache; re-reads of failing recipes are not constrained."),
 }
